@@ -115,7 +115,7 @@ CLAIMED["C05"] = dict(
 
 CLAIMED["C12"] = dict(
     text="Heap model with STORED _root/_treepath caches updated exactly where node.py updates them (so staleness is expressible). "
-         "Invariant by induction over operations: Inv (ids occur once in the whole forest, names distinct, every node below a Root "
+         "Invariant by induction over operations: Inv (ids occur once in the whole forest, non-Root names distinct, every node below a Root "
          "records that Root and its real treepath, other top-level objects are single unrooted nodes). C12_step: add / force-add / "
          "graft (from a node or a Root, every option) / cut / object creation / metadata assignment each keep Inv; C12_history: so "
          "does EVERY finite sequence satisfying the quantifier's side conditions (legalSeq: fresh names, no graft onto an own "
@@ -123,11 +123,9 @@ CLAIMED["C12"] = dict(
          "C12_lookup_own_path (the walk and the absolute lookup of a node's recorded path return that node), C12_one_place, "
          "C12_relabel / C12_shape (moved branch arrives intact, whole branch refreshed), C12_refused_* (forbidden operations "
          "change nothing).",
-    note="Histories that cut the same node from the same Root twice create two Roots of one name and fall outside legalSeq "
-         "(all-names-distinct form of the invariant); the check evaluates legalSeq with the Lean definition on every tested history "
-         "and records the share (155/200 at seed 0); for the others the per-operation snapshot comparison with the model and the "
-         "direct well-formedness predicate are the evidence. Grafts of a node onto its own descendant are excluded (the property's "
-         "own exclusion).",
+    note="The check evaluates legalSeq with the Lean definition on every tested history and records the share inside the theorem's "
+         "hypothesis (200/200 at seed 0). Grafts of a node onto its own descendant are excluded (the property's own exclusion); "
+         "Roots may share names (repeated cuts), only ordinary node names must be distinct.",
     technique="Lean 4 invariant-by-induction proof over all operation histories of a heap model + differential correspondence with full snapshots after every operation",
     design="7 C12")
 CLAIMED["C13"] = dict(
